@@ -1675,6 +1675,10 @@ func (c *DnsController) __updateDnsCacheDeadline(cacheKey string, host string, d
 		}
 	}
 
+	// A stored answer counts as used now: without this a never-looked-up entry (for instance
+	// one just written by a background refresh) has recency 0 and is the first LRU victim.
+	newCache.lastAccessNano.Store(now.UnixNano())
+
 	// Store atomically - concurrent writes don't block each other
 	newCache.RouteOwnerKey = cacheKey
 	c.dnsCache.Store(cacheKey, newCache)
